@@ -20,6 +20,7 @@ import Proofs.GoTiePrims
 import Proofs.GoTieSshRsa
 import Proofs.GoTieScryptCtor
 import Proofs.GoTieMarshal
+import Proofs.GoTieCtors
 namespace AgeModel
 namespace Tie.C05
 open SpecConsts
@@ -257,6 +258,15 @@ theorem header_marshal_tie {δ ε ω : Type} (E : GoTie.MarshalEnv δ ε ω) (h 
     ∃ d', Extracted.format_Header_Marshal E.W E.b64 E.New E.Wr E.Cl E.Enc ⟨h.stanzas.map GoTie.toGoFStanza, h.mac⟩ d = .ok (none, d') ∧
       E.absD d' = E.absD d ++ Format.marshal h :=
   GoTie.header_marshal_tie E h d
+
+/-- `agessh.sshFingerprint`, translated: the tag written on (and compared with) SSH stanzas is the
+    first four bytes of SHA-256 of the key's wire form in unpadded base64 — the model's `sshTag` -/
+theorem sshFingerprint_tie {π : Type} (P : Prims) (wire : π → Bytes)
+    (Sum : Bytes → Go.M Bytes) (hSum : ∀ b, Sum b = .ok (P.sha256 b)) (hLen : ∀ b, (P.sha256 b).length = 32)
+    (Mar : π → Go.M Bytes) (hMar : ∀ k, Mar k = .ok (wire k))
+    (Enc : Bytes → Go.M Bytes) (hEnc : ∀ b, Enc b = .ok (B64.encRaw b)) (k : π) :
+    Extracted.agessh_sshFingerprint Sum Mar Enc k = .ok (sshTag P (wire k)) :=
+  GoTie.sshFingerprint_tie P wire Sum hSum hLen Mar hMar Enc hEnc k
 
 end Tie.C05
 end AgeModel
